@@ -48,7 +48,8 @@ def gen_plan(seed, i, tier):
                        'permute': rng.chance(0.5), 'leave_empty': rng.chance(0.3), 'ssf': rng.chance(0.3),
                        'parent_labels': rng.chance(0.15)})
         elif op == 'SetPartitions':
-            st.update({'nparts': rng.below(6), 'salt': rng.below(1 << 30), 'unassigned': rng.chance(0.3), 'leave_empty': rng.chance(0.3)})
+            st.update({'nparts': rng.below(6), 'salt': rng.below(1 << 30), 'unassigned': rng.chance(0.3), 'leave_empty': rng.chance(0.3),
+                       'oor': rng.chance(0.25), 'oor_exact': rng.chance(0.5)})   # labels one (or two) past the partition list: the list grows
         elif op == 'DeleteVerts':
             st['verts'] = hist.vert_selector(rng)
             if st['verts']['kind'] in ('all',):
